@@ -35,6 +35,16 @@ def rt_case(draw):
 
 
 @st.composite
+def mixed_case(draw):
+    """Mixed alignment modes: a named structure loaded with the other align flag (its own load() call) used as a
+    member, so an aligned structure can sit at an unaligned offset. Pure round-trip oracle (no reference sizes)."""
+    case = draw(gens.input_case(gens.opts(mixed_align=True, unions=False, eof=False, signed_flags=False, max_depth=1)))
+    case["mode"] = "parsed"
+    case["mixed"] = True
+    return case
+
+
+@st.composite
 def raw_case(draw):
     cfg = draw(gens.config())
     o = gens.opts(max_fields=4, max_depth=1, align_hint=cfg["align"])
@@ -137,7 +147,7 @@ def _roundtrip(case, ctx, T, obj, label, ref):
         if eq is not True:
             raise Violation("roundtrip-not-equal", f"parse(dumps(v)) == v is {eq!r} although the plain values agree: {desc({'dump': b.hex()})}")
     size = ref["sem"].size(common.ROOT)
-    if size is not None and (len(b) != size or len(T) != size):
+    if size is not None and not case.get("mixed") and (len(b) != size or len(T) != size):
         raise Violation("fixed-size-differs", f"len(dumps)={len(b)} len(T)={len(T)} reference size {size}: {desc()}")
     return v, b
 
